@@ -234,6 +234,12 @@ impl<'p> Gen<'p> {
         match c {
             0 => Pd::Int(self.r.range(0, 1 << 40) as i64 - (1 << 20)),
             1 => Pd::Bytes(*self.r.pick(&[0u16, 1, 28, 32, 64, 65, 130]), self.r.below(200) as u8),
+            2 if self.r.chance(1, 3) => {
+                // magnitudes around 2^512: the byte string under tag 2 / 3 crosses the 64-byte bound
+                let bits = *self.r.pick(&[504u32, 511, 512, 513, 520, 600]);
+                let v = (num_bigint::BigUint::from(1u8) << bits) + num_bigint::BigUint::from(self.r.below(3)) - num_bigint::BigUint::from(1u8);
+                Pd::Big(format!("{}{}", if self.r.chance(1, 2) { "-" } else { "" }, v))
+            }
             2 => Pd::Big(format!("{}{}", if self.r.chance(1, 2) { "-" } else { "" }, "18446744073709551616123")),
             3 => {
                 let n = self.r.below(3);
